@@ -244,6 +244,23 @@ def real_case(case):
                                 selection_became_empty=bool("0 feature(s)" in str(e)), **where)], "stats": {"evals": 1}}
     if obs.get("nonterminating"):
         return {"v": [violation("path_does_not_terminate", {"calls": obs["calls"], "config": where}, **where)], "stats": {"evals": 1}}
+    if "steps" not in obs:
+        # the path returned without ever scoring the model (e.g. a shortcut for min_features >= number of features): the contract then reads
+        # "no step taken: empty histories, best weights = those of the initial UNPENALISED fit", judged against an independent fit with alpha = 0
+        v = []
+        if any(len(h) for h in ret[1:]):
+            v.append(violation("histories_of_unequal_length", {"lengths": [len(h) for h in ret[1:]], "validation_calls_observed": 0, "config": where}, **where))
+        ref_model = M.make(name, **dict(kw, alpha=0.0))
+        with warnings.catch_warnings():
+            warnings.simplefilter("ignore")
+            ref_model.fit(Xfit, y)
+        for a_, b_ in zip(ret[0], ref_model._get_weights()):
+            if np.shape(a_) != np.shape(b_) or not np.allclose(a_, b_, rtol=1e-9, atol=1e-12):
+                v.append(violation("best_weights_are_not_those_of_the_initial_unpenalised_fit", {"max_abs_diff": float(np.abs(np.asarray(a_) - np.asarray(b_)).max()), "config": where}, **where))
+                break
+        if model.alpha != alpha:
+            v.append(violation("alpha_not_restored_after_path", {"alpha_now": model.alpha, "alpha_before": alpha, "config": where}, **where))
+        return {"v": v, "nt": [], "stats": {"evals": 1, "traces": 1}, "sample": {"config": where, "note": "no validation call observed"}}
     cfg = dict(alpha=alpha, alpha_multiplier=mult, min_features=minf, keep_threshold=keep, restore_best_weights=restore,
                dynamic=bool(kw.get("dynamic", False)), y_given=pre, d=d)
     breaches = ref.check_contract(cfg, obs, ret, [w.copy() for w in model._get_weights()], texts)
